@@ -4,6 +4,7 @@ import (
 	"bytes"
 	"context"
 	"log"
+	"net/http"
 	"net/http/httptest"
 	"sync"
 
@@ -63,8 +64,12 @@ func NewWebEnv(conf *config.Root, backend string) (*WebEnv, error) {
 	ctx, cancel := context.WithCancel(context.Background())
 	go hub.Start(ctx)
 	errlog := &SyncBuffer{}
-	srv := httptest.NewUnstartedServer(web.Router)
-	srv.Config.ErrorLog = log.New(errlog, "", 0)
+	ln, err := ListenLoopback()
+	if err != nil {
+		cancel()
+		return nil, err
+	}
+	srv := &httptest.Server{Listener: ln, Config: &http.Server{Handler: web.Router, ErrorLog: log.New(errlog, "", 0)}}
 	srv.Start()
 	return &WebEnv{Env: env, Hub: hub, Server: srv, Base: srv.URL + prefix(""), ErrLog: errlog, cancel: cancel}, nil
 }
